@@ -43,6 +43,23 @@ wide dynamic range  sub-check `spike` (and kind `spike` of `qtt`): entries of or
                     tol_opp ~ 8*K_Z*eps*prod(1+n_k)*A  (~1e-3..1e-1 at A = 1e8..1e10 for sizes <= 64), so an opposite-side
                     extremum that is merely "some order-one entry" is rejected (labels tol_opp/spread:* give the histogram).
                     Badly balanced layouts (A in one core) are generated too; there the normwise bounds are loose.
+extreme scales      sub-check `scaled`: an order-one tensor times 10**x or 2**x, |x| <= 250 decades, the factor balanced over the
+                    cores (10**(x/d) each, the usual spelling), in the first / last / one drawn core, or per core with
+                    exponents of both signs whose contiguous partial sums stay within +-|x|.  The routines are stabilised
+                    (orthogonalize(use_stab=True), 2**p0 per step, normalisation by q_max BEFORE squaring), so the claims above
+                    hold at every representable scale.  The reference is scale-free (class ScaledRef): every core is split
+                    exactly into M_k * 2**e_k, the dense reference and all tolerances are those of M, returned values are
+                    divided exactly by 2**sum(e_k); arg-max of |Y| / Y / -Y is invariant.  Measured on the unmodified tree:
+                    optima_tt_beam / optima_tt_max exact up to 1e+-300 in all layouts; optima_tt (squares the shifted
+                    tensor core by core) exact up to 1e+-150 and wrong / raising beyond -> it is called only while every
+                    partial product of cores is within 2**+-470 (~1e+-141).  The opposite-side tolerance uses the actual
+                    cores of teneva.const (|y1|**(1/d) each above 1e-16, unit cores and y1 in the last one below): it is
+                    tight for balanced cores at huge scales and for the factor in the last core at tiny scales (labels
+                    tol_opp/spread:*), loose (sound, little teeth) in the other layouts.
+unequal modes       sub-check `qtt_shapes`: optima_qtt on power-of-two mode sizes that are not all equal ([4,8,4], [2,4,2],
+                    [8,4,8], [4,4,8], ..., d = 2, 3 (thorough: up to 5)).  Documented outcome: ValueError.  Asserted: the
+                    call raises ValueError, or it returns and the validity clause holds (integer indices of length d inside
+                    the bounds, values = entries, y_min <= y_max, inputs untouched); any other exception is a violation.
 call histories      sub-check `history` (and the `hist` part of `func`): the routines are pure functions of the VALUES of
                     the cores at the time of the call.  One list object is searched, refilled with another tensor of the
                     same mode sizes (item assignment / slice assignment / clear+extend with new arrays, in-place overwrite
@@ -73,14 +90,21 @@ RULE = ("Hypothesis draws TT specs (d 2..5(6), mode sizes 1..5, rank profiles ra
         "base + 1..2 isolated entries of modulus 1e3..1e12, either sign, balanced or one-core layout, global scale 2**(g*d), "
         "full beam; also for optima_qtt); call histories on ONE list object (2..3 tensors of the same mode sizes, refilled by "
         "item/slice assignment, clear+extend, in-place overwrite, overwritten arrays in a new list, all or some cores, 1..3 "
-        "drawn routine calls incl. optima_qtt on power-of-two shapes after every refill; the same for optima_func_tt_beam). Oracle = dense enumeration of all entries. Non-trivial = at least two modes of size >= 2 "
+        "drawn routine calls incl. optima_qtt on power-of-two shapes after every refill; the same for optima_func_tt_beam); "
+        "extreme scales: order-one tensors (d 2..5, optionally shifted all-negative / all-positive) times 10**x or 2**x, |x| <= 250 "
+        "decades (emphasis on 100..140 and 200..250), factor balanced / first / last / one core / per-core exponents of both signs "
+        "with bounded partial sums, any k; optima_qtt on power-of-two mode sizes that are not all equal (d 2..3(5), q 1..3, first and "
+        "last mode equal or not). Oracle = dense enumeration of all entries. Non-trivial = at least two modes of size >= 2 "
         "and (some rank >= 2, or tied extremal values, or rank 1 with k < size); functional: >= 2 modes of size >= 3; history: a call "
         "after a refill that changed the values, with k >= size or rank-1 content; "
+        "scaled: the same with |scale| beyond 1e+-90; qtt_shapes: every case; "
         "distinct by SHA-1 of the case.")
 TOLERANCES = ("validity: |y - dense[i]| <= 32*(d+sum r+max n)*eps*E(|cores|)[i] (== on small-integer cores); max-modulus under a "
               "full beam: tau = 9*K*eps*prod||G_k||_F (rank 1: 9*K*eps*max|Y|); opposite extremum: 2*tau + min(sqrt(t), t/(D-tau)), "
               "t = 8*K_Z*eps*prod(||G_k||_F^2 + n_k|y1|^(2/d)); optima_qtt: the same on the QTT image + 2*delta (measured QTT "
-              "distance, capped a priori); functional: relative 1e-6 against a 20001-point grid maximum")
+              "distance, capped a priori); functional: relative 1e-6 against a 20001-point grid maximum; extreme scales: the same formulas on "
+              "the exactly normalised cores M_k = Y_k/2**e_k, values divided exactly by 2**sum(e_k), t with the actual cores of "
+              "teneva.const evaluated in log2")
 ASSUMPTIONS = [
     "d >= 2 (library-wide precondition), k >= 1 integer",
     "exactness under a full beam is asserted for k >= number of tensor elements (then k >= every partial index set)",
@@ -93,6 +117,15 @@ ASSUMPTIONS = [
     "call histories: a refill keeps the mode sizes (ranks may change when whole cores are assigned); the reference is recomputed "
     "from a snapshot of the list after every refill; an open finding met in the middle of a history is reported after its last call",
     "spike families: only the generic full-beam / validity claims are asserted (tolerances derived as everywhere else)",
+    "extreme scales: tensors whose cores are finite and whose every contiguous partial product of cores (hence every entry, every "
+    "prefix product in teneva.get and every R*core product of the sweeps) stays within 2**+-960, i.e. 10**+-250 times an order-one "
+    "tensor; then no intermediate of optima_tt_beam / optima_tt_max over- or underflows and the relative error model is scale "
+    "covariant (measured: exact up to 1e+-300 on the unmodified tree)",
+    "extreme scales, optima_tt: called only while every contiguous partial product of cores is within 2**+-470 (~1e+-141): the "
+    "routine squares the shifted tensor core by core, beyond about 1e+-154 those squares over- / underflow on the unmodified tree "
+    "(measured: exact at 1e+-150, wrong answers / exceptions from 1e+155 and below 1e-160); optima_qtt is not run on scaled tensors",
+    "qtt_shapes: for unequal power-of-two mode sizes the documented outcome is ValueError; 'raises ValueError or returns a valid "
+    "answer' is asserted, optimality of a returned answer is not",
 ]
 
 GRID = np.linspace(-1.0, 1.0, 20001)
@@ -192,6 +225,89 @@ class Ref:
                          or np.sum(self.F >= self.Fmax - self.tau) >= 2)
 
 
+    E = 0                                       # the reference is expressed in units of 2**E (ScaledRef: E != 0)
+
+    def unscale(self, y):
+        """A value returned by the library in the units of the reference (identity here, exact division by 2**E in ScaledRef)."""
+        return y
+
+
+def normalise(Y):
+    """Y_k = M_k * 2**e_k exactly, max|M_k| in [0.5, 1) (e_k = 0 for a zero core): the scale-free form of a TT-tensor."""
+    M, e = [], []
+    for G in Y:
+        m = float(np.max(np.abs(G)))
+        ek = math.frexp(m)[1] if (m > 0 and np.isfinite(m)) else 0
+        M.append(np.ldexp(np.asarray(G, dtype=float), -ek))
+        e.append(int(ek))
+    return M, e
+
+
+def spread_bits(e, zero=None):
+    """max |e_i + ... + e_j| over all contiguous ranges of cores (binary exponents of every partial product of cores);
+    a range containing a zero core has a zero product, so the ranges are taken between the zero cores."""
+    best, seg = 0, []
+    for j in range(len(e) + 1):
+        if j == len(e) or (zero is not None and zero[j]):
+            if seg:
+                P = np.concatenate([[0], np.cumsum(seg)])
+                best = max(best, int(P.max() - P.min()))
+            seg = []
+        else:
+            seg.append(e[j])
+    return best
+
+
+L2_SWITCH_HI, L2_SWITCH_LO = math.log2(2e-16), math.log2(0.5e-16)      # teneva.const changes its layout at |v| = 1e-16
+
+
+class ScaledRef(Ref):
+    """Reference for an extremely scaled (but representable) tensor Y = 2**E * M, M = product of the normalised cores.
+
+    arg-max of |Y|, of Y and of -Y do not depend on the factor 2**E, and division by 2**E is exact in binary64, so all
+    comparisons are done in the units of M: F, A, tolget, tau are those of M (the rounding errors of get / QR / contractions
+    are relative to the products of the core norms, i.e. covariant under exact power-of-two scaling as long as no partial
+    product of cores leaves the normal range - see ASSUMPTIONS), values returned by the library are divided by 2**E.
+    The bound t for the squared shifted tensor needs the ACTUAL cores of teneva.const(shape, y1): |y1|**(1/d) in every core
+    if |y1| > 1e-16, else unit cores with y1 in the last one; S_Z = prod_k(||Y_k||_F^2 + n_k c_k^2) is evaluated in log2 and
+    divided by 2**(2E).  (For E = 0 and |y1| > 1e-16 this is exactly Ref's formula.)
+    """
+
+    def __init__(self, Y):
+        M, e = normalise(Y)
+        super().__init__(M)
+        self.e, self.E = e, int(sum(e))
+        self.exact_split = all(np.array_equal(np.ldexp(Mk, ek), G) for Mk, ek, G in zip(M, e, Y))
+        d = self.d
+        nf = [float(np.linalg.norm(G)) for G in M]
+        y1n = self.mm * (1 + 1e-9)
+        L = math.log2(y1n) + self.E if y1n > 0 else -math.inf              # log2|y1| (upper estimate)
+        lf2 = [2 * (math.log2(f) + ek) if f > 0 else -math.inf for f, ek in zip(nf, e)]
+        ln = [math.log2(m) for m in self.n]
+        cands = []
+        with np.errstate(all="ignore"):
+            if L > L2_SWITCH_LO:
+                cands.append(sum(float(np.logaddexp2(a, b + 2 * L / d)) for a, b in zip(lf2, ln)))
+            if L <= L2_SWITCH_HI:
+                cands.append(sum(float(np.logaddexp2(a, b)) for a, b in zip(lf2[:-1], ln[:-1]))
+                             + float(np.logaddexp2(lf2[-1], ln[-1] + 2 * L)))
+        lSZ = max(cands) - 2 * self.E
+        SZ = 2.0 ** min(lSZ, 1000.0) if lSZ > -1000 else 0.0
+        KZ = 32.0 * (d + sum((G.shape[2] + 1) ** 2 for G in M) + max(self.n))
+        D = self.Fmax - self.Fmin
+        self.t = 8 * KZ * EPS * SZ
+        rt = math.sqrt(self.t)
+        g = rt if D - self.tau <= 0 else min(rt, self.t / (D - self.tau))
+        self.tol_opp = 2 * self.tau + g
+        self.tiny = L <= L2_SWITCH_HI and not self.tol_opp <= D          # label only: unit shift cores AND no teeth
+
+    def unscale(self, y):
+        try:
+            return math.ldexp(y, -self.E)
+        except OverflowError:
+            return math.copysign(math.inf, y)
+
+
 def check_index(ctx, i, n, what):
     ctx.check(isinstance(i, np.ndarray), f"{what}: multi-index is not an ndarray", got=type(i).__name__)
     ctx.check(i.ndim == 1 and i.shape[0] == len(n), f"{what}: multi-index has shape {i.shape}, expected ({len(n)},)")
@@ -202,7 +318,7 @@ def check_index(ctx, i, n, what):
 
 def check_value(ctx, ref, i, y, what, exact):
     ctx.check(np.ndim(y) == 0 and isinstance(y, (float, np.floating)), f"{what}: value is not a float scalar", got=repr(y))
-    y = float(y)
+    y = ref.unscale(float(y))
     f = float(ref.F[i])
     if exact:
         ctx.check(y == f, f"{what}: value is not bit-for-bit the tensor entry (small-integer cores)", got=y, ref=f, index=list(i))
@@ -359,13 +475,16 @@ def check_unmodified(ctx, Y, Y0):
         ctx.check(np.array_equal(G, G0), "the input TT-cores were modified")
 
 
-def run_tt(Y, k, ctx, exact, spec=None, ret_all=True):
-    ref = Ref(Y)
+def run_tt(Y, k, ctx, exact, spec=None, ret_all=True, ref=None, do_tt=True):
+    ref = Ref(Y) if ref is None else ref
     labels_for(ctx, ref, k, spec)
     Y0 = [G.copy() for G in Y]
     for l2r in (True, False):                              # beam, both directions
         check_beam(ctx, Y, ref, k, l2r, ret_all)
     check_tt_max(ctx, Y, ref, k, exact)                    # best of both directions
+    if not do_tt:
+        check_unmodified(ctx, Y, Y0)
+        return ref
     y_min, y_max = check_optima_tt(ctx, Y, ref, k, exact)  # min and max
     check_unmodified(ctx, Y, Y0)
     check_pair(ctx, ref, y_min, y_max, k, "optima_tt")
@@ -496,6 +615,93 @@ def prop_spike(case, ctx):
             # where the check has teeth: the admitted error of the opposite-side extremum against the spread of the base entries
             ctx.label("tol_opp/spread:" + ("<=1e-3" if ref.tol_opp <= 1e-3 * spread else "<=1e-1" if ref.tol_opp <= 0.1 * spread
                                            else "<=1" if ref.tol_opp <= spread else ">1"))
+
+
+# ------------------------------------------------------------------------------------------------ extreme global / per-core scales
+
+X10_FAR = (-250, -245, -240, -230, -220, -210, -200, -180, -150, -140, -135, -130, -125, -120, -115, -110, -105, -100, -80, -40,
+           40, 80, 100, 105, 110, 115, 120, 125, 130, 135, 140, 150, 180, 200, 210, 220, 230, 240, 245, 250)
+BITS_PER_DECADE = math.log2(10.0)
+TT_MAX_BITS = 960        # optima_tt_beam / optima_tt_max: every partial product of cores within 2**+-960 (10**+-250 times the
+                         # own magnitude of the order-one base cores, <= 2**+-22 per core)
+OPTIMA_TT_BITS = 470     # optima_tt squares the shifted tensor core by core: 2**+-470 (~1e+-141), measured exact up to 1e+-150
+
+
+@st.composite
+def scaled_cases(draw, tier):
+    """Order-one tensor times 10**x or 2**x, |x| up to 250 decades, the factor spread over the cores in several ways."""
+    kw = tt_sizes(tier)
+    d = draw(st.sampled_from([2, 3, 3, 4, 4, 5, 5]))
+    lo = draw(st.sampled_from([1, 2, 2, 2]))
+    n = gen._cap_shape([draw(st.integers(lo, 5)) for _ in range(d)], 120 if tier == "quick" else 400)
+    rf = draw(st.sampled_from([("rank1",), ("uniform", "ragged"), ("uniform", "ragged", "over_ranked")]))
+    base = draw(gen.tt_specs(shape=n, r_max=3, families=("gauss", "gauss", "float", "dyadic", "smallint", "explicit"),
+                             rank_families=rf, entries_max=400))
+    kind = draw(st.sampled_from(["pow10", "pow10", "pow2"]))
+    lay = draw(st.sampled_from(["bal", "bal", "bal", "front", "back", "back", "one", "percore", "percore"]))
+    x = draw(st.one_of(st.sampled_from(X10_FAR), st.sampled_from(X10_FAR), st.integers(-250, 250)))
+    unit = 1.0 if kind == "pow10" else BITS_PER_DECADE
+    sc = {"kind": kind, "lay": lay, "x": int(round(x * unit))}
+    if lay == "one":
+        sc["j"] = draw(st.integers(0, d - 1))
+    if lay == "percore":
+        # prefix sums of the per-core exponents inside a window of width |x| containing 0 and ending at x: every
+        # contiguous partial product of cores stays within 10**+-|x| (construction, not rejection)
+        w = abs(x)
+        a = draw(st.integers(0, w)) if x >= 0 else draw(st.integers(-w, 0))
+        lo_w, hi_w = (a - w, a) if x >= 0 else (a, a + w)
+        lo_w, hi_w = min(lo_w, 0, x), max(hi_w, 0, x)
+        if hi_w - lo_w > w:                         # keep the width: the window must hold 0 and x, which are |x| apart
+            lo_w, hi_w = min(0, x), max(0, x)
+        P = [0] + [draw(st.integers(lo_w, hi_w)) for _ in range(d - 1)] + [x]
+        sc["e"] = [int(round((P[j + 1] - P[j]) * unit)) for j in range(d)]
+    ys = {"base": base, "shift": draw(st.sampled_from(["none", "none", "none", "neg", "pos"]))}
+    size = int(np.prod(n))
+    kmode = draw(st.sampled_from(["full", "full", "full", "any", "small", "one"]))
+    return {"Y": ys, "sc": sc, "k": draw_k(draw, size, kmode), "kmode": kmode}
+
+
+def apply_scale(Y, sc, layout="C"):
+    """Multiply the tensor by 10**x (float factors) or 2**x (exact), the factor balanced over the cores / in one core / per core."""
+    d, kind, lay, x = len(Y), sc["kind"], sc["lay"], sc["x"]
+    if lay == "percore":
+        ex = sc["e"]
+    elif lay == "bal":
+        ex = None
+    else:
+        j = {"front": 0, "back": d - 1}.get(lay, sc.get("j", 0))
+        ex = [x if k == j else 0 for k in range(d)]
+    if kind == "pow2":
+        if ex is None:
+            ex = [x // d + (1 if k < x % d else 0) for k in range(d)]
+        Z = [np.ldexp(np.asarray(G, dtype=float), int(e)) for G, e in zip(Y, ex)]
+    elif ex is None:
+        f = 10.0 ** (x / d)
+        Z = [G * f for G in Y]
+    else:
+        Z = [G * 10.0 ** e for G, e in zip(Y, ex)]
+    return [gen.relayout(G, layout) for G in Z] if layout != "C" else Z
+
+
+def prop_scaled(case, ctx):
+    ys, sc = case["Y"], case["sc"]
+    Y = apply_scale(build(ys), sc, ys["base"].get("layout", "C"))
+    ref = ScaledRef(Y)
+    sp = spread_bits(ref.e, [not np.any(G) for G in Y])
+    # generator invariants (by construction): finite cores, exact power-of-two split, every partial product representable
+    assert all(np.all(np.isfinite(G)) for G in Y) and ref.exact_split and sp <= TT_MAX_BITS, (sp, ref.e)
+    do_tt = sp <= OPTIMA_TT_BITS
+    ex = exact_ok(ys["base"]) and ys.get("shift", "none") == "none" and sc["kind"] == "pow2"
+    x10 = ref.E / BITS_PER_DECADE
+    ctx.label("shift:" + ys.get("shift", "none"), "kind:" + sc["kind"], "lay:" + sc["lay"], "scale:1e%+d" % (50 * int(round(x10 / 50))),
+              "optima_tt:" + ("called" if do_tt else "out_of_domain"), "spread:2^%d" % (100 * int(math.ceil(sp / 100))))
+    if do_tt and case["k"] >= ref.size and ref.Fmax > ref.Fmin:
+        # where the opposite-side claim has teeth (balanced cores at huge scales, scale in the last core at tiny scales)
+        D = ref.Fmax - ref.Fmin
+        ctx.label("tol_opp/spread:" + ("<=1e-3" if ref.tol_opp <= 1e-3 * D else "<=1" if ref.tol_opp <= D else ">1"))
+    run_tt(Y, case["k"], ctx, ex, ys["base"], ret_all=True, ref=ref, do_tt=do_tt)
+    if abs(x10) < 90:
+        ctx.nt = False                               # ordinary scales are the business of the other sub-checks
 
 
 # ------------------------------------------------------------------------------------------------ call histories on one list object
@@ -822,6 +1028,59 @@ def prop_qtt(case, ctx):
     run_qtt(ctx, Y, k, q, d, ex, qsep=(kind == "qsep"))
 
 
+# ------------------------------------------------------------------------------------------------ quantised variant, unequal modes
+
+@st.composite
+def qtt_shape_cases(draw, tier):
+    """optima_qtt on power-of-two mode sizes that are NOT all equal (documented: unsupported -> ValueError)."""
+    d = draw(st.sampled_from([2, 2, 3, 3, 3, 3] if tier == "quick" else [2, 3, 3, 3, 4, 5]))
+    qs = [draw(st.integers(1, 3)) for _ in range(d)]
+    pat = draw(st.sampled_from(["free", "ends_equal", "ends_equal", "head_equal", "tail_equal"]))
+    if pat == "ends_equal":
+        qs[-1] = qs[0]
+    elif pat == "head_equal":
+        qs[:-1] = [qs[0]] * (d - 1)
+    elif pat == "tail_equal":
+        qs[1:] = [qs[-1]] * (d - 1)
+    if len(set(qs)) == 1:                            # not all equal, by construction
+        j = draw(st.integers(1, d - 2)) if (pat == "ends_equal" and d >= 3) else draw(st.integers(0, d - 1))
+        qs[j] = draw(st.sampled_from([q for q in (1, 2, 3) if q != qs[j]]))
+    n = [2 ** q for q in qs]
+    spec = draw(gen.tt_specs(shape=n, r_max=3, families=QTT_FAMILIES, entries_max=600))
+    size = int(np.prod(n))
+    kmode = draw(st.sampled_from(["full", "full", "any", "small", "one"]))
+    return {"Y": spec, "k": draw_k(draw, size, kmode), "kmode": kmode, "default_k": draw(st.integers(0, 4)) == 0}
+
+
+def prop_qtt_shapes(case, ctx):
+    Y = gen.build_tt(case["Y"])
+    n, k = case["Y"]["n"], case["k"]
+    Y0 = [G.copy() for G in Y]
+    ctx.label(f"shape:{n}", f"d=={len(n)}", "ends_equal" if n[0] == n[-1] else "ends_differ", *gen.spec_labels(case["Y"]))
+    ctx.nontrivial(True)
+    args = (Y,) if case["default_k"] else (Y, k)
+    try:
+        out = teneva.optima_qtt(*args)
+    except ValueError:
+        ctx.label("outcome:ValueError")              # the documented outcome for unequal mode sizes
+        check_unmodified(ctx, Y, Y0)
+        return
+    except Exception as e:  # noqa: BLE001
+        ctx.check(False, f"optima_qtt on unequal power-of-two mode sizes raised {type(e).__name__} (documented: ValueError)",
+                  shape=n, error=str(e)[:200])
+    # it answered: the validity clause of the property holds for every returned answer
+    ctx.label("outcome:returned")
+    ref = Ref(Y)
+    ctx.check(isinstance(out, tuple) and len(out) == 4, "optima_qtt: not a 4-tuple", shape=n)
+    i_min, y_min, i_max, y_max = out
+    a = check_index(ctx, i_min, n, f"optima_qtt(i_min), shape {n}")
+    b = check_index(ctx, i_max, n, f"optima_qtt(i_max), shape {n}")
+    y_min = check_value(ctx, ref, a, y_min, f"optima_qtt(y_min), shape {n}", False)
+    y_max = check_value(ctx, ref, b, y_max, f"optima_qtt(y_max), shape {n}", False)
+    ctx.check(y_min <= y_max, "optima_qtt: y_min > y_max", y_min=y_min, y_max=y_max, shape=n)
+    check_unmodified(ctx, Y, Y0)
+
+
 # ------------------------------------------------------------------------------------------------ functional variant
 
 @st.composite
@@ -980,8 +1239,10 @@ SUBCHECKS = [
     Sub("tt", prop_tt, strategy=tt_cases, quick=100, thorough=1500),
     Sub("rank1", prop_tt, strategy=rank1_cases, quick=120, thorough=2000),
     Sub("spike", prop_spike, strategy=spike_cases, quick=60, thorough=1000),
+    Sub("scaled", prop_scaled, strategy=scaled_cases, quick=100, thorough=1500),
     Sub("history", prop_history, strategy=history_cases, quick=60, thorough=1000),
     Sub("small", prop_small, enumerate=small_cases, exhaustive=True),
     Sub("qtt", prop_qtt, strategy=qtt_cases, quick=80, thorough=1200),
+    Sub("qtt_shapes", prop_qtt_shapes, strategy=qtt_shape_cases, quick=40, thorough=400),
     Sub("func", prop_func, strategy=func_cases, quick=100, thorough=1500),
 ]
